@@ -1,6 +1,6 @@
 (** * C15 — statement splitting agrees with the lexer and loses nothing.
     Only statements here; every proof is [exact] of a lemma from Proofs/. *)
-From PQL Require Import Model.Lexer Proofs.LexerFacts Proofs.SplitFacts Proofs.LexCut Proofs.ScanCut Proofs.Locality.
+From PQL Require Import Model.Lexer Model.Parser Spec.FlattenStmt Proofs.LexerFacts Proofs.SplitFacts Proofs.LexCut Proofs.ScanCut Proofs.Locality Proofs.ParsePieces.
 From Coq Require Import String.
 Local Open Scope list_scope.
 Local Open Scope nat_scope.
@@ -49,6 +49,20 @@ Theorem C15_scan_cut : forall a b, (exists t, In t (scan (a ++ 59%N :: b)) /\ ts
   scan (a ++ 59%N :: b) = scan a ++ semi_tok (length a) :: map (shift_tok (S (length a))) (scan b).
 Proof. exact scan_semi. Qed.
 Print Assumptions C15_scan_cut.
+
+(** Parse reports statements in the same order and number as the non-empty pieces: when Parse
+    succeeds, its statements correspond one to one, in order, to the pieces of SplitStatements that
+    contain at least one token, and each statement stands for exactly the tokens its piece has when
+    scanned on its own (moved to the piece's offset; [toks_stmt] is the token relation of C08) *)
+Theorem C15_parse_order : forall s ss, parse s = ParseOk ss ->
+  Forall2 toks_stmt ss (nonempty (scans_of 0 (split_statements s))).
+Proof. exact parse_pieces. Qed.
+Print Assumptions C15_parse_order.
+
+Theorem C15_parse_count : forall s ss, parse s = ParseOk ss ->
+  length ss = length (nonempty (scans_of 0 (split_statements s))).
+Proof. exact parse_count. Qed.
+Print Assumptions C15_parse_count.
 
 (** non-vacuity: a source whose string and comment contain ';' is cut once *)
 Example C15_example :
